@@ -77,6 +77,7 @@ type Exec struct {
 	topFrame        *frame
 	curReach        string
 	pureLets        [][2]string
+	callerFrame     *frame
 	letDepth        int
 	qrec            map[string]*qRecord
 }
